@@ -50,7 +50,7 @@ PROPS = {
         explanation='Lean: tamper_evident, frame_injective, foreign_rejected (under MacInj), decode_encode, opaque_contents; facts: block key passed to the cookie store; tie: tampered cookie predicted `bad` = absent; oracles: keyless extractor finds no planted secret, tampered value never read as session content',
     ),
     'C18': dict(
-        family='session', driver_family='handler', fields=['lines'],
+        family='session', driver_family='handler', fields=['lines', 'attrs', 'dattrs'],
         facts=['maxCookieSize', 'maxIncomingPathLength', 'absoluteSessionTimeoutSec', 'mainCookieName', 'accessTokenCookie', 'refreshTokenCookie', 'optHttpOnly', 'optSameSiteLax', 'optPathRoot',
                'optMaxAgeIsSessionTimeout', 'optSecureIncludesForceHTTPS', 'saveAssignsOptionsToAll', 'securecookieMaxLen', 'cookieStoreKeyArgs'],
         extra_runs=[dict(family='handler', diff=False)],
